@@ -27,6 +27,7 @@ MANIFEST = {
             "and must keep bits before the cursor and leave bits after the new cursor zero; float16 tie direction is not judged; "
             "a zero-length write may report either success or buffer-too-small.",
 }
+MANIFEST["text"] += " Support headers are also generated for c++20 and c++17-pmr and with the command line's --trim-blocks / --lstrip-blocks; the Python driver writes and reads every ordered pair of special float values back to back and all 65,536 halves in increasing and scrambled order."
 
 HERE = os.path.join(common.VERIF, "vlib", "c14")
 
